@@ -349,7 +349,7 @@ def scalar_saturation(ctx):
     rep = ctx.rep
     E = (-1074, -1040, -1022, -600, -1, 0, 1, 600, 1000, 1022, 1023)
     if ctx.tier == 'thorough':
-        E = tuple(sorted(set(range(-1074, 1024, 32)) | set(E)))
+        E = tuple(sorted(set(range(-1074, 1024, 96)) | set(E)))
     nz = [mag.binade(e, s_) for e in E for s_ in (1, -1)]
     comp = nz + [mag.Z]
     REF = {'a_complex_mul_real_': lambda a, b, r: (mag.mul(a, r), mag.mul(b, r)),
